@@ -7,7 +7,7 @@ LEVEL = 'proof'
 def run(rep, work, rng, tier):
     common.proof_part(rep, 'C14')
     shared = work.sub('shared')
-    n = 150 if tier == 'quick' else 3000
+    n = 150 if tier == 'quick' else 10000
     cases = []; kinds = {}
     import shutil
     for f in ('str1d.c3d', 'charscalar.c3d', 'sparse.c3d'):
